@@ -54,3 +54,47 @@ func VerifR6bSnapshotOnUsedReplica() {
 	vConverged("final", a, b)
 	zzvsym.Observe(a.Marshal())
 }
+
+// VerifR6dUndoThenCollect: undo and redo act on the user-visible copy exactly
+// as on the document: after the tombstones they touched are collected (the
+// copy is collected alongside the document) the copy still equals the
+// document, and the next edit works on it. The replica is the only attached
+// client, so its own syncs let it collect (how undo / redo changes fare on
+// peers is C15).
+func VerifR6dUndoThenCollect() {
+	a := vReplica("actA")
+	s := vNewSrv()
+	typ := zzvsym.IntRange("type", 0, vNumTypes-1)
+	vBase(a, typ)
+	zzvsym.Assert(a.ClearHistory() == nil, "clear-history-no-error") // undo stops at the base content
+	s.sync(0, a)
+	vSmallAlphabet = true
+	vSkew(a, "skewA")
+	n := 1 + zzvsym.Tier()
+	for i := 0; i < n; i++ {
+		vEdit(a, vName("a", i), typ, 10+i)
+	}
+	if zzvsym.IntRange("syncBeforeUndo", 0, 1) == 1 {
+		s.sync(0, a)
+		s.sync(0, a)
+	}
+	for i := 0; i < n; i++ {
+		zzvsym.Assert(a.Undo() == nil, "undo-no-error")
+		vCheckClone(a, "after-undo")
+	}
+	if zzvsym.IntRange("redo", 0, 1) == 1 {
+		zzvsym.Assert(a.Redo() == nil, "redo-no-error")
+		vCheckClone(a, "after-redo")
+	}
+	// the replica's own syncs let it collect what undo / redo left behind
+	s.sync(0, a)
+	s.sync(0, a)
+	zzvsym.Reach("collected")
+	vCheckClone(a, "after-collection")
+	// the next edit is chosen from, and applied to, the copy
+	vEdit(a, "z", typ, 21)
+	s.sync(0, a)
+	s.sync(0, a)
+	vCheckClone(a, "final")
+	zzvsym.Observe(a.Marshal())
+}
